@@ -11,6 +11,9 @@ oracle_c02 — line protocol (threads `0..N-1`, keys `0..K-1`; `sᵢ` = shard in
   `counts <k>` → `r=<readCount> w=<writeCount> p=<0|1>`     (T-observable)
   `entries`    → number of map entries                       (T-observable)
   `burst|unburst <t> <w|r> <lo> <hi>` (single-shard lockers) → lock / unlock keys lo..hi-1 one after the other; status vector
+  `lockrange|unlockrange <t> <w|r> <lo> <hi>` (1-shard tkl/tkg) → ONE multi-key call over keys lo..hi-1 (up to 6500 keys)
+  `mutate <k>` → `ok` (pointer keys: the pointee changes, the key does not)
+  key kinds `ptr`/`flt` on group lockers: remap cannot route them, every lock call answers `unroutable`
   `stress <G> <iters>` → `ok` (G goroutines hammer a fresh locker of the same shape; monitors only)
   `drain`      → every thread outside a call releases what it holds (lowest thread, lowest key first), repeatedly; status vector
 When woken threads race for a further key the quiescent state is not unique: the oracle tracks the set of
@@ -28,6 +31,8 @@ structure Snap where
 deriving DecidableEq, Hashable
 
 structure Env where
+  /-- keys of a kind remap cannot route (pointer, float) on a group locker: every lock call panics in remap before it locks -/
+  unroutable : Bool
   multi : Bool
   n : Nat
   sh : List Nat
@@ -38,7 +43,11 @@ def snap (e : Env) (s : State) : Snap :=
   ⟨(List.range s.next).map s.objs, s.next, (List.range e.K).map s.table, (List.range e.N).map s.th, s.fault⟩
 
 def ofSnap (p : Snap) : State :=
-  ⟨fun o => p.objs.getD o Wrap.empty, p.next, fun k => (p.table.getD k none), fun t => p.th.getD t Thread.init, p.fault⟩
+  -- arrays: constant-time lookups after a normalisation (scripts with thousands of keys)
+  let objs := p.objs.toArray
+  let table := p.table.toArray
+  let th := p.th.toArray
+  ⟨fun o => objs.getD o Wrap.empty, p.next, fun k => table.getD k none, fun t => th.getD t Thread.init, p.fault⟩
 
 def cfg : Cfg := Nv.Gen.C02.cfg
 def Env.shf (e : Env) : Key → Nat := fun k => e.sh.getD k 0
@@ -55,7 +64,9 @@ def runGroup (e : Env) (a : Act) (t : Tid) : Nat → State → State
   | fuel + 1, s =>
     match e.step s a with
     | none => s
-    | some s' => if nGroups (s'.th t).phase < nGroups (s.th t).phase then s' else runGroup e a t fuel s'
+    | some s' =>
+      if nGroups (s'.th t).phase < nGroups (s.th t).phase then s'
+      else runGroup e a t fuel (if fuel % 128 == 0 then ofSnap (snap e s') else s')  -- cut the closure chains of long groups
 
 /-- runtime scheduling policy the LTS leaves open: `rw.w` (a `sync.Mutex`) wakes its sleepers in FIFO order, so a
 sleeping writer that is not the oldest does not compete (threads that never slept may barge, as in Go) -/
@@ -120,7 +131,7 @@ def doCall (e : Env) (s : State) (a : Act) (t : Tid) : List State ⊕ String :=
   if (s.th t).phase ≠ .idle then .inr "busy" else
   match e.step s a with
   | none => .inr "misuse"
-  | some s' => .inl (settle e s')
+  | some s' => if e.unroutable then .inr "unroutable" else .inl (settle e s')
 
 /-- first (thread, key, mode) to release in a drain: lowest thread outside a call that holds something, its lowest key -/
 def drainPick (e : Env) (s : State) : Option (Tid × Key × Mode) :=
@@ -177,8 +188,8 @@ def parseInit (ws : List String) : Option Env :=
       let single := kind == "kl" || kind == "tkl"
       let multi := kind == "tkl" || kind == "tkg"
       let known := single || kind == "klg" || kind == "tkg"
-      if known && (hash == "mod" || hash == "xh" || hash == "str" || hash == "neg" || hash == "n64" || hash == "hit") && n ≥ 1 && n ≤ 100 && nT ≥ 1 && nT ≤ 48 && nK ≥ 1 && nK ≤ 48 && shs.length == nK && shs.all (· < n) && (!single || n == 1) && (hash != "hit" || !multi) && (hash != "n64" || multi) && ((hash != "neg" && hash != "n64") || nK ≤ 12)
-      then some ⟨multi, n, shs, nT, nK⟩ else none
+      if known && (hash == "mod" || hash == "xh" || hash == "str" || hash == "neg" || hash == "n64" || hash == "hit" || hash == "ptr" || hash == "flt") && n ≥ 1 && n ≤ 100 && nT ≥ 1 && nT ≤ 48 && nK ≥ 1 && nK ≤ 48 && shs.length == nK && shs.all (· < n) && (!single || n == 1) && (hash != "flt" || !single) && (hash != "hit" || !multi) && (hash != "n64" || multi) && ((hash != "neg" && hash != "n64") || nK ≤ 12)
+      then some ⟨(hash == "ptr" || hash == "flt") && !single, multi, n, shs, nT, nK⟩ else none
     | _, _, _, _ => none
   | _ => none
 
@@ -213,6 +224,32 @@ def burstState (e : Env) (t : Tid) (m : Mode) (un : Bool) : List Key → Nat →
         let s3 := if i % 32 == 31 then ofSnap (snap e s2) else s2
         burstState e t m un ks (i + 1) s3
       else (settle e s1).flatMap (burstState e t m un ks (i + 1))
+
+/-- thread `t` runs alone through a long call; the closure chains are cut every 128 steps -/
+def runAloneN (e : Env) (t : Tid) : Nat → Nat → State → State
+  | 0, _, s => s
+  | fuel + 1, i, s =>
+    match macroStep e s t with
+    | none => s
+    | some s' => runAloneN e t fuel (i + 1) (if i % 128 == 127 then ofSnap (snap e s') else s')
+
+/-- `lockrange`/`unlockrange`: ONE Locks/RLocks/Unlocks/RUnlocks call over the keys `lo..hi-1` -/
+def rangeOp (os : OS) (e : Env) (t : Tid) (m : Mode) (un : Bool) (lo hi : Nat) : OS × String :=
+  let e' : Env := { e with K := max e.K hi }
+  let keys := (List.range (hi - lo)).map (· + lo)
+  let a : Act := if un then .uncall t m keys else .call t m keys
+  let rs := os.states.map fun s =>
+    if s.fault then (s, (.inr "fault" : List State ⊕ String)) else
+    if (s.th t).phase ≠ .idle then (s, .inr "busy") else
+    match e'.step s a with
+    | none => (s, .inr "misuse")
+    | some s1 =>
+      if (List.range e'.N).all (fun u => u == t || (s1.th u).phase = .idle) then
+        (s, .inl [ofSnap (snap e' (runAloneN e' t (3 * (hi - lo) + 64) 0 s1))])
+      else (s, .inl (settle e' s1))
+  let next := rs.flatMap fun (s, r) => match r with | .inl l => l | .inr _ => [s]
+  let outs := rs.flatMap fun (_, r) => match r with | .inl l => l.map (statusVec e') | .inr x => [x]
+  (⟨some e', dedupStates e' next⟩, showSet outs)
 
 def burstOp (os : OS) (e : Env) (t : Tid) (m : Mode) (un : Bool) (lo hi : Nat) : OS × String :=
   let e' : Env := { e with K := max e.K hi }
@@ -259,9 +296,25 @@ def step (os : OS) (line : String) : OS × String :=
               | some o => s!"r={(s.objs o).rc} w={(s.objs o).wc} p=1"))
           else (os, "bad-op")
         | none => (os, "bad-op")
+      | ["mutate", k] =>
+        -- the key object is modified in place (pointer keys): its identity, hence the key, is unchanged
+        match strictNat? k with
+        | some k => if k < e.K then (os, "ok") else (os, "bad-op")
+        | none => (os, "bad-op")
       | ["entries"] =>
         (os, showSet (os.states.map fun s => toString ((List.range e.K).filter (fun k => (s.table k).isSome)).length))
       | [op, t, md, lo, hi] =>
+        if op == "lockrange" || op == "unlockrange" then
+          match strictNat? t, strictNat? lo, strictNat? hi with
+          | some t, some lo, some hi =>
+            let m? : Option Mode := if md == "w" then some .w else if md == "r" then some .r else none
+            match m? with
+            | some m =>
+              if t < e.N && e.n == 1 && e.multi && lo < hi && hi ≤ 8192 && hi - lo ≤ 6500 then rangeOp os e t m (op == "unlockrange") lo hi
+              else (os, "bad-op")
+            | none => (os, "bad-op")
+          | _, _, _ => (os, "bad-op")
+        else
         if op != "burst" && op != "unburst" then (os, "bad-op") else
         match strictNat? t, strictNat? lo, strictNat? hi with
         | some t, some lo, some hi =>
